@@ -22,6 +22,21 @@ def bulk_hook(w, job, part):
         if any(f.prop in ('C11', 'MODEL') for f in w.findings): return
     w.op_closeall(0); w.op_closeall(1); w.mon_state(dead_sample=60); w.mon_handles(dead_sample=200)
 
+def copy_hook(w, job, part):
+    """directed: copies that CHANGE the placement of the object (public -> private, session <-> token) made while the user is logged in, then a logout / close of the creating session / close-all:
+    the handle of the copy dies or lives by what the COPY is, not by what its source was; every handle is probed after every step"""
+    rnd = w.rnd
+    for ti in range(2):
+        w.op_open(ti, True); w.op_open(ti, True); se = [x for x in w.m.sess.values() if x.alive and x.ti == ti]; w.op_login(se[0], 1, True)
+        for tok in (True, False):
+            for priv in (False, True): w.op_create(se[0], on_token=tok, private=priv); w.mon_handles(dead_sample=10)
+        for src_priv, new_tok, new_priv in ((False, None, True), (False, True, True), (False, False, True), (True, True, None), (True, False, None), (False, True, None), (False, False, None)):
+            w.op_copy(se[rnd.randrange(2)], force=(lambda o, sp=src_priv: o.private == sp, new_tok, new_priv)); w.mon_handles(dead_sample=10)
+        w.op_logout(se[0]); w.mon_handles(dead_sample=40); w.op_login(se[1], 1, True); w.mon_handles(dead_sample=40)
+        w.op_close(se[0]); w.mon_handles(dead_sample=40); w.op_closeall(ti); w.mon_handles(dead_sample=80)
+        if any(f.prop in ('C11', 'MODEL') for f in w.findings): return
+    w.run(job['steps'], monitors=('handles',), stop_on={'C11', 'MODEL'})
+
 def run(ctx):
     ctx.rule = ('model-guided random histories (2 tokens, <=5 sessions; open/close/close-all/login/logout/create/copy/find/destroy); after EVERY call every '
                 'live handle and a sample of dead ones are probed (sessions: C_GetSessionInfo, objects: C_GetAttributeValue(CKA_LABEL)=unique tag); '
@@ -29,6 +44,7 @@ def run(ctx):
     n = ctx.q(600, 6000); steps = ctx.q(50, 60)
     run_walks(ctx, {'C11'}, n, steps, weights=W, backends=ctx.q(('file',), ('file', 'db')))
     run_walks(ctx, {'C11'}, ctx.q(8, 32), ctx.q(120, 300), weights=W, backends=('file',), hook=bulk_hook, max_sessions=100000)
+    run_walks(ctx, {'C11'}, ctx.q(32, 200), ctx.q(30, 50), weights=W, backends=ctx.q(('file',), ('file', 'db')), hook=copy_hook)
     ctx.extra['bulk_scenarios'] = 'additionally 8 (quick) / 32 (thorough) bulk histories with 360-900 sessions and 720-1800 objects each: numeric uniqueness of every handle, liveness after partial close / close-all'
     ctx.assumptions += ['probing uses a session of the same token; cross-token use of a handle is outside the property', 'dead handles beyond a random sample of 10 (objects) / 4 (sessions) per step are not re-probed at that step']
 if __name__ == '__main__': main('C11', run, min_evaluations=1000, min_distinct=40)
